@@ -9,7 +9,10 @@ PDE (Poisson, Heat) models; domain geometries identity-like, Image2D, mapped wit
 `gradient`, a user geometry class with its own `gradient`, mapped without one, KL and Step
 expansions (must refuse); the finite-difference option switched on with several epsilons and
 off again; DistributionGallery targets; shipped test problems; gradient calls made internally
-by NUTS/MALA/ULA.
+by NUTS/MALA/ULA.  A magnitude axis multiplies every matrix / scale parameter (Gaussian 4 parameterisations x
+full/banded/sparse/vector/scalar, GMRF precision, Lognormal covariance, Cauchy/CMRF/SmoothedLaplace/InverseGamma/Uniform
+scales, likelihood noise, priors inside posteriors, model amplitude) by 10^k, k in -16..12, with locations, data and
+evaluation points generated on the matching scale.
 
 Monitors (M): a runtime contract (vlib.contracts.ensure) on `Density.gradient` and on the
 classes that override `gradient` (Cauchy, Uniform, SmoothedLaplace,
@@ -45,10 +48,11 @@ ASSUMPTIONS = ["the log-density returned by logd is taken as given (C04 judges i
                "and at every x+eps*e_i (then the documented forward difference exists and has to be returned)"]
 REQUIRED_COUNTERS = {
     "quick": {"gradient_compared": 6000, "components_compared": 30000, "chain_rule_compared": 2000, "fd_option_compared": 1400,
-              "outside_support_checked": 230, "must_refuse_refused": 1100, "nested_calls_judged": 2800, "sampler_internal_calls_judged": 400},
+              "outside_support_checked": 230, "must_refuse_refused": 1100, "nested_calls_judged": 2800, "sampler_internal_calls_judged": 400,
+              "scaled_problem_calls": 150},
     "thorough": {"gradient_compared": 60000, "components_compared": 300000, "chain_rule_compared": 20000, "fd_option_compared": 14000,
                  "outside_support_checked": 2300, "must_refuse_refused": 11000, "nested_calls_judged": 28000,
-                 "sampler_internal_calls_judged": 4000},
+                 "sampler_internal_calls_judged": 4000, "scaled_problem_calls": 700},
 }
 BUDGET_S = {"quick": 240.0, "thorough": 2400.0}
 
@@ -170,17 +174,23 @@ def judge_call(obj, args, kwargs, result, expect_outside=False, twin_logd=None):
         return ev
     scale = max(float(np.max(np.abs(R[np.isfinite(R)]))) if np.any(np.isfinite(R)) else 0.0,
                 float(np.max(np.abs(g[np.isfinite(g)]))) if np.any(np.isfinite(g)) else 0.0)
-    usable = np.isfinite(R) & (err <= POOR_REF * max(scale, 1.0))
+    # everything below is relative to the gradient's own magnitude (no absolute floor: a 1e-12 gradient of a very wide
+    # prior and a 1e+12 gradient of a very sharp likelihood are judged alike)
+    if not np.any(g != 0.0) and np.all(np.isfinite(R)) and np.all(np.abs(R) <= 10.0 * err):
+        # an exactly-zero gradient (flat density): confirmed when the numerical derivative is zero within its own resolution
+        ev.update(status="ok", ncomp=int(x.size), headroom_ok=True, zero=True)
+        return ev
+    usable = np.isfinite(R) & (err <= POOR_REF * scale)
     if not np.any(usable):
         ev["why"] = "reference derivative not accurate enough"
         return ev
-    tol = ERR_FACTOR * err + RTOL_COMP * np.abs(R) + RTOL_VEC * scale + 1e-10
+    tol = ERR_FACTOR * err + RTOL_COMP * np.abs(R) + RTOL_VEC * scale
     if ev["mode"] == "fd":
         eps = float(getattr(obj, "FD_epsilon", 1e-8) or 1e-8)
         # (a) the forward-difference quotient of the same object's logd with the configured epsilon, recomputed here
         try:
             Q = FD.forward_quotient(fscalar, x, eps)
-            qtol = 1e-6 * np.abs(Q) + 1e-8 * scale + 32 * FD.EPS * max(abs(f0), 1.0) / eps + 1e-10
+            qtol = 1e-6 * np.abs(Q) + 1e-8 * scale + 32 * FD.EPS * abs(f0) / eps
             with np.errstate(invalid="ignore"):
                 if np.all(np.isfinite(Q)) and np.all(np.abs(g - Q) <= qtol):
                     ev.update(status="ok", ncomp=int(x.size), headroom_ok=True, fd_ref="forward_quotient")
@@ -198,7 +208,7 @@ def judge_call(obj, args, kwargs, result, expect_outside=False, twin_logd=None):
             return ev
         H = np.where(np.isfinite(H), np.abs(H), 0.0)
         # forward difference: truncation eps*|f''|/2 (+ next term), round-off 2 ulp(f)/eps
-        tol = tol + 20.0 * (0.5 * eps * H + eps ** 2 * max(scale, 1.0) + 8 * FD.EPS * max(abs(f0), 1.0) / eps) + 1e-3 * eps * max(scale, 1.0)
+        tol = tol + 20.0 * (0.5 * eps * H + 8 * FD.EPS * abs(f0) / eps)
     with np.errstate(invalid="ignore"):
         bad = usable & ~(np.abs(g - R) <= tol)
     ev["ncomp"] = int(np.sum(usable))
@@ -390,28 +400,49 @@ def _spd(rs, n, lo=0.5, hi=4.0):
     return (S + S.T) / 2
 
 
-def _form_value(form, rs, n, sqrt=False):
-    """Matrix-like parameter of a Gaussian in the given representation (always well conditioned)."""
+def _scaled(M, scale):
+    return M if scale == 1.0 else M * scale
+
+
+def _form_value(form, rs, n, sqrt=False, scale=1.0):
+    """Matrix-like parameter of a Gaussian in the given representation (always well conditioned), times `scale`
+    (scale only changes the magnitude: 1e-16 .. 1e+12 are all legal covariances / precisions)."""
     import scipy.sparse as sp
     v = rs.uniform(0.4, 3.0, n)
     if form == "scalar":
-        return float(rs.uniform(0.4, 3.0))
+        return float(rs.uniform(0.4, 3.0)) * scale
     if form == "arr1":
-        return np.array([float(rs.uniform(0.4, 3.0))])
+        return np.array([float(rs.uniform(0.4, 3.0))]) * scale
     if form == "vector":
-        return v
+        return _scaled(v, scale)
     if form == "diagmat":
-        return np.diag(v)
+        return _scaled(np.diag(v), scale)
     if form == "sparse_diag":
-        return sp.diags(v)
-    S = _spd(rs, n)
+        return sp.diags(_scaled(v, scale))
+    if form.endswith("banded"):
+        # dense tridiagonal, diagonally dominant (the classic smoothness-prior / correlated-noise matrix)
+        d = rs.uniform(2.0, 3.0, n)
+        o = rs.uniform(0.3, 0.95, max(n - 1, 0)) * rs.choice([-1.0, 1.0])
+        S = np.diag(d) + np.diag(o, 1) + np.diag(o, -1)
+    else:
+        S = _spd(rs, n)
     if sqrt:
         S = np.linalg.cholesky(S)          # a genuinely non-symmetric square root
-    if form == "full":
+    S = _scaled(S, scale)
+    if form in ("full", "banded"):
         return S
-    if form == "sparse_full":
+    if form in ("sparse_full", "sparse_banded"):
         return sp.csc_matrix(S)
     raise ValueError(form)
+
+
+def _std_factor(param, scale):
+    """How the standard deviations change when the Gaussian's matrix parameter is multiplied by `scale`."""
+    return {"cov": np.sqrt(scale), "prec": 1.0 / np.sqrt(scale), "sqrtcov": scale, "sqrtprec": 1.0 / scale}[param]
+
+
+SCALE_KS = (-16, -12, -10, -8, -6, -4, 0, 4, 8, 12)
+SCALE_KS_SMALL = (-12, -8, -4, 4, 8, 12)
 
 
 def _loc_value(kind, rs, n):
@@ -591,6 +622,23 @@ def _dist_cases():
         for cf in ("scalar", "vector", "diagmat", "full"):
             out.append({"family": "Lognormal", "loc": loc, "form": cf})
     out.append({"family": "Cauchy", "loc": "vector", "form": "bad_scale", "geom": "default"})
+    # --- magnitude axis: the same matrices / scales multiplied by 10^k (all legal), locations and points on the matching scale
+    for p in G_PARAMS:
+        for f in ("full", "banded", "sparse_full", "sparse_banded", "vector", "scalar"):
+            for k in SCALE_KS:
+                out.append({"family": "Gaussian", "param": p, "form": f, "loc": "vector", "geom": "default", "scale_k": k})
+    for bc in BCS:
+        for k in SCALE_KS:
+            out.append({"family": "GMRF", "bc": bc, "order": (0, 1, 2)[(k // 2) % 3], "pd": 1 + (k // 4) % 2, "loc": "vector", "scale_k": k})
+    for k in SCALE_KS_SMALL:
+        out.append({"family": "CMRF", "bc": BCS[(k // 4) % 3], "pd": 1, "loc": "vector", "scale_k": k})
+        out.append({"family": "Cauchy", "loc": "vector", "form": "vector", "geom": "default", "scale_k": k})
+        out.append({"family": "SmoothedLaplace", "loc": "vector", "form": "vector", "beta": 1e-2, "scale_k": k})
+        out.append({"family": "InverseGamma", "loc": "vector", "form": "vector", "scale_k": k})
+        out.append({"family": "Uniform", "loc": "vector", "form": "vector", "scale_k": k})
+    for k in (-6, -4, -2, 2):
+        for cf in ("vector", "full", "banded"):
+            out.append({"family": "Lognormal", "loc": "vector", "form": cf, "scale_k": k})
     for a in ("scalar", "vector"):
         for b in ("scalar", "vector"):
             out.append({"family": "Beta", "form": a, "form2": b})
@@ -616,7 +664,8 @@ def cases(tier, seed):
     # --- distributions: every discrete combination, `reps` sampled variants each
     reps = 2 if quick else 30
     for d in _dist_cases():
-        for r in range(reps if not d.get("big") else (1 if quick else 2)):
+        nrep = (1 if quick else 2) if d.get("big") else ((1 if quick else 6) if "scale_k" in d else reps)
+        for r in range(nrep):
             out.append({"kind": "dist", **d, "rep": r, "s": R.randrange(10 ** 9)})
     # --- likelihoods: model x domain geometry x data form x range geometry
     combos = []
@@ -654,6 +703,22 @@ def cases(tier, seed):
         for r in range(preps):
             out.append({"kind": "post", "prior": pr, "model": mk, "dgeom": dg, "data": R.choice(POST_DATA),
                         "rep": r, "s": R.randrange(10 ** 9)})
+    # --- magnitude axis for likelihood noise and for priors inside posteriors
+    sreps = 1 if quick else 5
+    for nparam in ("cov", "prec", "sqrtcov"):
+        for nform in ("full", "banded", "sparse_banded", "vector"):
+            for k in SCALE_KS:
+                for r in range(sreps):
+                    out.append({"kind": "scaled", "role": "lik", "data": f"{nparam}:{nform}", "noise_k": k,
+                                "model": R.choice(("matrix", "funadj", "jac", "dirjac")), "amp_k": R.choice((0, 0, -8, 8)),
+                                "rep": r, "s": R.randrange(10 ** 9)})
+    for prior in ("cov:full", "cov:banded", "prec:full", "prec:banded", "sqrtcov:full", "sqrtcov:banded", "gmrf:prec"):
+        for k in SCALE_KS:
+            for r in range(sreps):
+                out.append({"kind": "scaled", "role": "post", "prior": prior, "scale_k": k,
+                            "data": R.choice(("cov:full", "cov:banded", "prec:full", "prec:banded", "prec:vector", "sqrtcov:banded")),
+                            "noise_k": R.choice(SCALE_KS), "model": R.choice(("matrix", "funadj", "jac", "dirjac")), "amp_k": 0,
+                            "rep": r, "s": R.randrange(10 ** 9)})
     # --- multiple-likelihood posteriors
     for r in range(60 if quick else 1500):
         nl = R.choice([2, 2, 3])
@@ -682,7 +747,7 @@ def cases(tier, seed):
 
 
 def crash_config(case):
-    return {k: case[k] for k in ("kind", "family", "form", "param", "model", "dgeom", "prior", "data", "pde", "sampler", "name") if k in case}
+    return {k: case[k] for k in ("kind", "family", "form", "param", "model", "dgeom", "prior", "data", "pde", "sampler", "name", "scale_k", "role", "noise_k") if k in case}
 
 
 def _cfg(case):
@@ -718,10 +783,10 @@ def _run_dist(case, ctx, mon, rs):
         return
     obj, points, must_refuse = built
     fam = case["family"]
-    if case.get("form") == "sparse_full":
+    if case.get("form") in ("sparse_full", "sparse_banded"):
         # no normalising constant without cholmod -> logd raises; reference = logd of the identical Gaussian given densely
         rs2 = np.random.RandomState(); rs2.set_state(st)
-        twin = _build_dist({**case, "form": "full"}, ctx, Probe(ctx, mon, cfg), rs2)
+        twin = _build_dist({**case, "form": case["form"][7:]}, ctx, Probe(ctx, mon, cfg), rs2)
         if twin is not None:
             mon.fallback[id(obj)] = twin[0].logd
     _probe_dist(case, ctx, mon, rs, pr, obj, points, must_refuse)
@@ -761,14 +826,21 @@ def _build_dist(case, ctx, pr, rs):
         if gk in ("image2d", "cont2d"):
             n = int(rs.choice([4, 9]))
         geom, _ = _geom(gk, n)
+        sk = case.get("scale_k")
+        mscale = 1.0 if sk is None else 10.0 ** sk
+        stdf = _std_factor(case["param"], mscale)       # location and points live on the distribution's own scale
+        if sk is not None:
+            n = int(rs.choice([2, 3, 4, 5]))
+            geom = n
         mean = _loc_value(case["loc"], rs, n)
-        val = _form_value(case["form"], rs, n, sqrt=case["param"].startswith("sqrt"))
+        mean = mean * stdf if sk is not None else mean
+        val = _form_value(case["form"], rs, n, sqrt=case["param"].startswith("sqrt"), scale=mscale)
         k, obj = core.outcome(D.Gaussian, mean, **{case["param"]: val}, geometry=geom, name="x")
         if k != "value":
             ctx.refused("ctor", obj); return None
         mu = np.broadcast_to(np.asarray(mean, dtype=float).reshape(-1), (n,)) if np.ndim(mean) else np.full(n, float(mean))
         for sc in ((0.1, 1.0, 10.0) if not case.get("big") else (1.0,)):
-            points.append((mu + sc * rs.standard_normal(n), False, f"inside_{sc}"))
+            points.append((mu + sc * stdf * rs.standard_normal(n), False, f"inside_{sc}"))
         must_refuse = gk in REFUSE_GEOMS or case["param"] == "sqrtprec"
     elif fam in ("GMRF", "CMRF", "LMRF"):
         pd, bc = case["pd"], case["bc"]
@@ -783,10 +855,13 @@ def _build_dist(case, ctx, pr, rs):
         if gk == "cont2d":
             geom = cuqi.geometry.Continuous2D((int(np.sqrt(n)), int(np.sqrt(n))))
         loc = _loc_value(case["loc"], rs, n)
+        mscale = 10.0 ** case.get("scale_k", 0)
+        stdf = (1.0 / np.sqrt(mscale)) if fam == "GMRF" else mscale
+        loc = loc * stdf
         if fam == "GMRF":
-            k, obj = core.outcome(D.GMRF, loc, float(rs.uniform(0.5, 20)), bc_type=bc, order=case["order"], geometry=geom, name="x")
+            k, obj = core.outcome(D.GMRF, loc, float(rs.uniform(0.5, 20)) * mscale, bc_type=bc, order=case["order"], geometry=geom, name="x")
         elif fam == "CMRF":
-            k, obj = core.outcome(D.CMRF, loc, float(rs.uniform(0.05, 2)), bc_type=bc, geometry=geom, name="x")
+            k, obj = core.outcome(D.CMRF, loc, float(rs.uniform(0.05, 2)) * mscale, bc_type=bc, geometry=geom, name="x")
         else:
             k, obj = core.outcome(D.LMRF, loc, float(rs.uniform(0.05, 2)), bc_type=bc, geometry=geom, name="x")
             must_refuse = True
@@ -794,20 +869,21 @@ def _build_dist(case, ctx, pr, rs):
             ctx.refused("ctor", obj); return None
         mu = np.broadcast_to(np.asarray(loc, dtype=float).reshape(-1), (n,)) if np.ndim(loc) else np.full(n, float(loc))
         for sc in (0.1, 1.0, 5.0):
-            points.append((mu + sc * rs.standard_normal(n), False, f"inside_{sc}"))
+            points.append((mu + sc * stdf * rs.standard_normal(n), False, f"inside_{sc}"))
         pr.cfg.update(geom=gk)
     elif fam in ("Cauchy", "SmoothedLaplace", "Laplace", "Normal"):
         gk = case.get("geom", "default")
         geom, _ = _geom(gk, n)
-        loc = _loc_value(case["loc"], rs, n)
-        sc = float(rs.uniform(0.2, 3)) if case["form"] == "scalar" else rs.uniform(0.2, 3, n)
+        mscale = 10.0 ** case.get("scale_k", 0)
+        loc = _loc_value(case["loc"], rs, n) * mscale
+        sc = (float(rs.uniform(0.2, 3)) if case["form"] == "scalar" else rs.uniform(0.2, 3, n)) * mscale
         if case["form"] == "bad_scale":
             sc = rs.uniform(0.2, 3, n); sc[rs.randint(n)] = -0.5
         if fam == "Cauchy":
             obj = D.Cauchy(loc, sc, geometry=geom, name="x")
             must_refuse = gk in REFUSE_GEOMS
         elif fam == "SmoothedLaplace":
-            obj = D.SmoothedLaplace(loc, sc, case["beta"], geometry=geom, name="x")
+            obj = D.SmoothedLaplace(loc, sc, case["beta"] * mscale ** 2, geometry=geom, name="x")
         elif fam == "Laplace":
             obj = D.Laplace(loc, sc, geometry=geom, name="x"); must_refuse = True
         else:
@@ -817,7 +893,7 @@ def _build_dist(case, ctx, pr, rs):
             points.append((mu + rs.standard_normal(n), True, "bad_scale"))
         else:
             for s_ in (0.05, 1.0, 10.0):
-                points.append((mu + s_ * rs.standard_normal(n), False, f"inside_{s_}"))
+                points.append((mu + s_ * mscale * rs.standard_normal(n), False, f"inside_{s_}"))
     elif fam in ("Beta", "Gamma"):
         a = float(rs.uniform(0.5, 5)) if case["form"] != "vector" else rs.uniform(0.5, 5, n)
         b = float(rs.uniform(0.5, 5)) if case["form2"] == "scalar" else rs.uniform(0.5, 5, n)
@@ -839,32 +915,39 @@ def _build_dist(case, ctx, pr, rs):
             obj = D.Gamma(a, b, geometry=n, name="x"); must_refuse = True
             points.append((rs.uniform(0.2, 4, n), False, "inside"))
     elif fam == "InverseGamma":
-        loc = _loc_value(case["loc"], rs, n)
+        ms = 10.0 ** case.get("scale_k", 0)
+        loc = _loc_value(case["loc"], rs, n) * ms
         sh = float(rs.uniform(1, 5)) if case["form"] == "scalar" else rs.uniform(1, 5, n)
-        sc = float(rs.uniform(0.3, 3)) if case["form"] == "scalar" else rs.uniform(0.3, 3, n)
+        sc = (float(rs.uniform(0.3, 3)) if case["form"] == "scalar" else rs.uniform(0.3, 3, n)) * ms
         obj = D.InverseGamma(sh, loc, sc, geometry=n, name="x")
         mu = np.broadcast_to(np.asarray(loc, dtype=float).reshape(-1), (n,)) if np.ndim(loc) else np.full(n, float(loc))
-        points.append((mu + rs.uniform(0.1, 3, n), False, "inside"))
-        points.append((mu + rs.uniform(0.3, 1.5, n), False, "inside"))
-        x = mu + rs.uniform(0.3, 2, n); x[0] = mu[0] + 2e-2
+        points.append((mu + ms * rs.uniform(0.1, 3, n), False, "inside"))
+        points.append((mu + ms * rs.uniform(0.3, 1.5, n), False, "inside"))
+        x = mu + ms * rs.uniform(0.3, 2, n); x[0] = mu[0] + ms * 2e-2
         points.append((x, False, "near_edge"))
         for bad in (-0.5, 0.0):
-            x = mu + rs.uniform(0.3, 2, n); j = rs.randint(n); x[j] = mu[j] + bad
+            x = mu + ms * rs.uniform(0.3, 2, n); j = rs.randint(n); x[j] = mu[j] + ms * bad
             points.append((x, True, f"outside_{bad}"))
     elif fam == "Lognormal":
         loc = _loc_value(case["loc"], rs, n)
         if np.ndim(loc):
             loc = 0.4 * loc
-        cov = _form_value(case["form"], rs, n)
+        sk = case.get("scale_k")
+        cov = _form_value(case["form"], rs, n, scale=1.0 if sk is None else 10.0 ** sk)
         if case["form"] in ("scalar", "vector", "diagmat"):
             cov = cov * 0.4
         k, obj = core.outcome(D.Lognormal, loc, cov, geometry=n, name="x")
         if k != "value":
             ctx.refused("ctor", obj); return None
-        points.append((np.exp(0.5 * rs.standard_normal(n)), False, "inside"))
-        points.append((np.exp(1.0 * rs.standard_normal(n)), False, "inside"))
-        x = np.exp(0.5 * rs.standard_normal(n)); x[0] = 1e-3
-        points.append((x, False, "near_edge"))
+        if sk is None:
+            points.append((np.exp(0.5 * rs.standard_normal(n)), False, "inside"))
+            points.append((np.exp(1.0 * rs.standard_normal(n)), False, "inside"))
+            x = np.exp(0.5 * rs.standard_normal(n)); x[0] = 1e-3
+            points.append((x, False, "near_edge"))
+        else:
+            mu_l = np.broadcast_to(np.asarray(loc, dtype=float).reshape(-1), (n,)) if np.ndim(loc) else np.full(n, float(loc))
+            for c_ in (0.5, 1.5):
+                points.append((np.exp(mu_l + c_ * 10.0 ** (sk / 2.0) * rs.standard_normal(n)), False, "inside"))
         for bad in (-0.3, 0.0):
             x = np.exp(0.5 * rs.standard_normal(n)); x[rs.randint(n)] = bad
             points.append((x, True, f"outside_{bad}"))
@@ -881,8 +964,9 @@ def _build_dist(case, ctx, pr, rs):
         x = rs.uniform(0.5, 2, n); x[0] = -0.4
         points.append((x, True, "outside"))
     elif fam == "Uniform":
-        loc = _loc_value(case["loc"], rs, n)
-        w = float(rs.uniform(0.5, 3)) if case["form"] == "scalar" else rs.uniform(0.5, 3, n)
+        ms = 10.0 ** case.get("scale_k", 0)
+        loc = _loc_value(case["loc"], rs, n) * ms
+        w = (float(rs.uniform(0.5, 3)) if case["form"] == "scalar" else rs.uniform(0.5, 3, n)) * ms
         low = loc if np.ndim(loc) else (float(loc) if case["form"] == "scalar" else np.full(n, float(loc)))
         high = low + w
         obj = D.Uniform(low, high, geometry=n, name="x")
@@ -1124,6 +1208,70 @@ def _run_hier(case, ctx, mon, rs, pr, n, m):
     _fd_cycle(pr, P, x_true, rs, chain=True, n_eps=1, extra={"ctor": "hierarchical"})
 
 
+def _run_scaled(case, ctx, mon, rs):
+    """Likelihoods and posteriors whose noise / prior matrices are multiplied by 10^k (and models by 10^a):
+    every quantity is generated on the matching scale, so the problem stays well posed at every magnitude."""
+    import cuqi
+    D = cuqi.distribution
+    cfg = _cfg(case)
+    pr = Probe(ctx, mon, cfg)
+    n = int(rs.choice([2, 3, 4, 5])); m = int(rs.choice([2, 3, 4, 5]))
+    amp = 10.0 ** case.get("amp_k", 0)
+    nparam, nform = case["data"].split(":")
+    nscale = 10.0 ** case["noise_k"]
+    nstd = _std_factor(nparam, nscale)
+    if case["role"] == "post" and case["prior"].startswith("gmrf") and n < 3:
+        n = 3
+    st = rs.get_state()
+
+    def build(noise_form, rs):
+        model = _model(case["model"], n, (n,), m, rs)
+        if amp != 1.0:
+            inner = model
+            model = (cuqi.model.LinearModel(inner.get_matrix() * amp) if case["model"] == "matrix" else
+                     cuqi.model.Model(lambda x: amp * inner._forward_func(x), m, n,
+                                      gradient=lambda direction, wrt: amp * inner._gradient_func(direction, wrt)))
+        y = D.Gaussian(model, **{nparam: _form_value(noise_form, rs, m, sqrt=nparam.startswith("sqrt"), scale=nscale)}, name="y")
+        if case["role"] == "post":
+            pparam, pform = case["prior"].split(":")
+            pscale = 10.0 ** case["scale_k"]
+            pstd = _std_factor("prec" if pparam == "gmrf" else pparam, pscale)
+            mean = pstd * (rs.standard_normal(n) + 1.0)
+            if pparam == "gmrf":
+                prior = D.GMRF(mean, float(rs.uniform(0.5, 5)) * pscale, bc_type=str(rs.choice(list(BCS))), order=int(rs.choice([0, 1])),
+                               geometry=n, name="x")
+            else:
+                prior = D.Gaussian(mean, **{pparam: _form_value(pform, rs, n, sqrt=pparam.startswith("sqrt"), scale=pscale)}, name="x")
+            xsc = pstd
+            x_true = mean + pstd * rs.standard_normal(n)
+        else:
+            prior = None
+            xsc = max(1.0, nstd / amp)          # far enough from the data for the misfit to be visible next to the constant
+            x_true = xsc * rs.standard_normal(n)
+        data = np.asarray(model.forward(x_true), dtype=float).reshape(-1) + nstd * rs.standard_normal(m)
+        L = y(y=data)
+        return L, (D.Posterior(L, prior) if prior is not None else None), x_true, xsc
+
+    k, res = core.outcome(build, nform, rs)
+    if k != "value":
+        ctx.refused("build", res); ctx.count("build_refused"); return
+    L, P, x_true, xsc = res
+    target = P if P is not None else L
+    if nform.startswith("sparse_") and P is None:
+        rs2 = np.random.RandomState(); rs2.set_state(st)
+        k2, res2 = core.outcome(build, nform[7:], rs2)
+        if k2 == "value":
+            mon.fallback[id(L)] = res2[0].logd
+    must_refuse = nparam == "sqrtprec"
+    xs = [x_true + 0.3 * xsc * rs.standard_normal(n), x_true + 1.0 * xsc * rs.standard_normal(n)]
+    for x in xs:
+        pr.call(target, x, must_refuse=must_refuse, chain=True)
+        ctx.count("scaled_problem_calls")
+    if P is not None:
+        pr.call(L, xs[0], must_refuse=must_refuse, chain=True)
+    _fd_cycle(pr, target, xs[0], rs, chain=True, n_eps=1)
+
+
 def _run_mlp(case, ctx, mon, rs):
     import cuqi
     D = cuqi.distribution
@@ -1308,7 +1456,7 @@ def _run_testproblem(case, ctx, mon, rs):
     _fd_cycle(pr, P, np.abs(rs.standard_normal(n)) + 0.3, rs, chain=True, n_eps=1)
 
 
-_RUN = {"dist": _run_dist, "lik": _run_lik, "post": _run_post, "mlp": _run_mlp, "pde": _run_pde,
+_RUN = {"scaled": _run_scaled, "dist": _run_dist, "lik": _run_lik, "post": _run_post, "mlp": _run_mlp, "pde": _run_pde,
         "sampler": _run_sampler, "testproblem": _run_testproblem}
 
 
